@@ -39,7 +39,9 @@ def values_for(rng, dt, tier, all16):
     if dt == enc.BOOLEAN:
         return [True, False]
     if dt in (enc.REAL32, enc.REAL64):
-        return real_values(rng, dt, "quick")[:: (1 if tier == "thorough" else 4)]
+        vals = real_values(rng, dt, "quick")
+        # both signed zeros, infinities and the other hand-picked values always; the random rest sampled
+        return vals[:9] + vals[9:: (1 if tier == "thorough" else 4)]
     lens = list(range(0, 20)) + [rng.randrange(20, 201) for _ in range(6)] + [200]
     if tier == "thorough":
         lens = list(range(0, 201))
@@ -106,6 +108,10 @@ def gen_cases(tier, seed):
     # UNICODE strings that begin / end with byte-order-mark code points
     for sval in ("\ufeffabc", "\ufffeab", "ab\ufeff", "\ufeff", "\ufffe\ufeffx"):
         ops += triple(rng, enc.USTR, sval)
+    # both signed zeros (and other pairs that compare equal: 1 / 1.0 / True) one after the other
+    for dt in (enc.REAL32, enc.REAL64):
+        for val in (0.0, -0.0, 0.0, -0.0, 1.0, -1.0, -0.0):
+            ops += triple(rng, dt, val)
     cases.append({"mode": "inline", "nodes": [9], "ops": {"9": ops}, "noise": True, "seed": 1})
     # (ii) dispatcher thread with seeded delays, (iii) python-can virtual bus: 1..8 client threads
     small = [(dt, val) for dt, val in pool if not isinstance(val, (str, bytes)) or len(val) <= 40]
